@@ -127,6 +127,17 @@ module Nat =
   | S y' -> sub y' (snd (divmod x y' O y'))
  end
 
+(** val nth : nat -> 'a1 list -> 'a1 -> 'a1 **)
+
+let rec nth n0 l default =
+  match n0 with
+  | O -> (match l with
+          | [] -> default
+          | x :: _ -> x)
+  | S m -> (match l with
+            | [] -> default
+            | _ :: t -> nth m t default)
+
 (** val nth_error : 'a1 list -> nat -> 'a1 option **)
 
 let rec nth_error l = function
@@ -163,6 +174,12 @@ let rec concat = function
 let rec map f = function
 | [] -> []
 | a :: t -> (f a) :: (map f t)
+
+(** val flat_map : ('a1 -> 'a2 list) -> 'a1 list -> 'a2 list **)
+
+let rec flat_map f = function
+| [] -> []
+| x :: t -> app (f x) (flat_map f t)
 
 (** val fold_left : ('a1 -> 'a2 -> 'a1) -> 'a2 list -> 'a1 -> 'a1 **)
 
@@ -216,6 +233,12 @@ let rec skipn n0 l =
   | S n1 -> (match l with
              | [] -> []
              | _ :: l0 -> skipn n1 l0)
+
+(** val seq : nat -> nat -> nat list **)
+
+let rec seq start = function
+| O -> []
+| S len0 -> start :: (seq (S start) len0)
 
 (** val repeat : 'a1 -> nat -> 'a1 list **)
 
@@ -1563,11 +1586,11 @@ let write_header_unchecked pt padding count buf =
     bind (set_at buf O (N.coq_lor b0 count)) (fun buf0 ->
       bind (set_at buf0 (S O) pt) (fun buf1 ->
         bind (usub (Nat.div (length buf1) (S (S (S (S O))))) (S O))
-          (fun words ->
+          (fun words0 ->
           bind
             (copy_into buf1 (S (S O)) (S (S (S (S O))))
               (be16
-                (N.modulo (N.of_nat words) (Npos (XO (XO (XO (XO (XO (XO (XO
+                (N.modulo (N.of_nat words0) (Npos (XO (XO (XO (XO (XO (XO (XO
                   (XO (XO (XO (XO (XO (XO (XO (XO (XO XH))))))))))))))))))))
             (fun buf2 -> Ok ((S (S (S (S O)))), buf2))))))
 
@@ -2057,15 +2080,15 @@ let bye_reason d =
           let off =
             add (mul (N.to_nat n0) (S (S (S (S O))))) (S (S (S (S O))))
           in
-          let sub0 =
+          let sub1 =
             add (add off (S O))
               (N.to_nat (match pad with
                          | Some p -> p
                          | None -> N0))
           in
-          if Nat.ltb len sub0
+          if Nat.ltb len sub1
           then Ok None
-          else if Nat.eqb (sub len sub0) O
+          else if Nat.eqb (sub len sub1) O
                then Ok None
                else bind (idx d off) (fun rl ->
                       let e = add (add off (S O)) (N.to_nat rl) in
@@ -5618,3 +5641,1141 @@ let spec_parse e l =
     true, false)), (String ((Ascii (false, false, true, false, false, true,
     true, false)), EmptyString)))))))))))))))))))))))))))))),
     (obs_bool (raw_framed l))) :: [])
+
+(** val sub0 : bytes -> nat -> nat -> bytes **)
+
+let sub0 l off len =
+  firstn len (skipn off l)
+
+(** val beN : bytes -> nat -> nat -> n **)
+
+let beN l off len =
+  be_dec (sub0 l off len)
+
+(** val byte_at : bytes -> nat -> n **)
+
+let byte_at l off =
+  nth off l N0
+
+(** val ref_hdr : bytes -> obs **)
+
+let ref_hdr l =
+  okO (OL
+    ((okN (N.div (byte_at l O) (Npos (XO (XO (XO (XO (XO (XO XH))))))))) :: (
+    (okN (byte_at l (S O))) :: ((okN
+                                  (N.modulo (byte_at l O) (Npos (XO (XO (XO
+                                    (XO (XO XH)))))))) :: ((okN
+                                                             (N.modulo
+                                                               (byte_at l O)
+                                                               (Npos (XO (XO
+                                                               (XO (XO (XO
+                                                               XH)))))))) :: (
+    (okI
+      (mul (S (S (S (S O))))
+        (add (N.to_nat (beN l (S (S O)) (S (S O)))) (S O)))) :: []))))))
+
+(** val ref_padding : bytes -> obs **)
+
+let ref_padding l =
+  okO
+    (if N.eqb
+          (N.modulo (N.div (byte_at l O) (Npos (XO (XO (XO (XO (XO XH)))))))
+            (Npos (XO XH))) (Npos XH)
+     then OL ((OS (String ((Ascii (true, true, false, false, true, true,
+            true, false)), (String ((Ascii (true, true, true, true, false,
+            true, true, false)), (String ((Ascii (true, false, true, true,
+            false, true, true, false)), (String ((Ascii (true, false, true,
+            false, false, true, true, false)), EmptyString))))))))) :: ((ON
+            (last l N0)) :: []))
+     else OS (String ((Ascii (false, true, true, true, false, true, true,
+            false)), (String ((Ascii (true, true, true, true, false, true,
+            true, false)), (String ((Ascii (false, true, true, true, false,
+            true, true, false)), (String ((Ascii (true, false, true, false,
+            false, true, true, false)), EmptyString)))))))))
+
+(** val ref_pad_len : bytes -> nat **)
+
+let ref_pad_len l =
+  if N.eqb
+       (N.modulo (N.div (byte_at l O) (Npos (XO (XO (XO (XO (XO XH)))))))
+         (Npos (XO XH))) (Npos XH)
+  then N.to_nat (last l N0)
+  else O
+
+(** val ref_rb : bytes -> nat -> obs **)
+
+let ref_rb l off =
+  OL
+    ((okN (beN l off (S (S (S (S O)))))) :: ((okN
+                                               (byte_at l
+                                                 (add off (S (S (S (S O))))))) :: (
+    (okN (beN l (add off (S (S (S (S (S O)))))) (S (S (S O))))) :: ((okN
+                                                                    (beN l
+                                                                    (add off
+                                                                    (S (S (S
+                                                                    (S (S (S
+                                                                    (S (S
+                                                                    O)))))))))
+                                                                    (S (S (S
+                                                                    (S O)))))) :: (
+    (okN
+      (beN l (add off (S (S (S (S (S (S (S (S (S (S (S (S O))))))))))))) (S
+        (S (S (S O)))))) :: ((okN
+                               (beN l
+                                 (add off (S (S (S (S (S (S (S (S (S (S (S (S
+                                   (S (S (S (S O))))))))))))))))) (S (S (S (S
+                                 O)))))) :: ((okN
+                                               (beN l
+                                                 (add off (S (S (S (S (S (S
+                                                   (S (S (S (S (S (S (S (S (S
+                                                   (S (S (S (S (S
+                                                   O))))))))))))))))))))) (S
+                                                 (S (S (S O)))))) :: [])))))))
+
+(** val ref_rbs : bytes -> nat -> obs **)
+
+let ref_rbs l start =
+  okO (OL
+    (map (fun k ->
+      ref_rb l
+        (add start
+          (mul (S (S (S (S (S (S (S (S (S (S (S (S (S (S (S (S (S (S (S (S (S
+            (S (S (S O)))))))))))))))))))))))) k)))
+      (seq O
+        (N.to_nat (N.modulo (byte_at l O) (Npos (XO (XO (XO (XO (XO XH)))))))))))
+
+(** val ref_view : variant -> bytes -> kv list **)
+
+let ref_view v l =
+  ((String ((Ascii (false, false, false, true, false, true, true, false)),
+    (String ((Ascii (false, false, true, false, false, true, true, false)),
+    (String ((Ascii (false, true, false, false, true, true, true, false)),
+    EmptyString)))))),
+    (ref_hdr l)) :: (match v with
+                     | VApp ->
+                       ((String ((Ascii (false, false, false, false, true,
+                         true, true, false)), (String ((Ascii (true, false,
+                         false, false, false, true, true, false)), (String
+                         ((Ascii (false, false, true, false, false, true,
+                         true, false)), (String ((Ascii (false, false, true,
+                         false, false, true, true, false)), (String ((Ascii
+                         (true, false, false, true, false, true, true,
+                         false)), (String ((Ascii (false, true, true, true,
+                         false, true, true, false)), (String ((Ascii (true,
+                         true, true, false, false, true, true, false)),
+                         EmptyString)))))))))))))),
+                         (ref_padding l)) :: (((String ((Ascii (true, true,
+                         false, false, true, true, true, false)), (String
+                         ((Ascii (true, true, false, false, true, true, true,
+                         false)), (String ((Ascii (false, true, false, false,
+                         true, true, true, false)), (String ((Ascii (true,
+                         true, false, false, false, true, true, false)),
+                         EmptyString)))))))),
+                         (okN (beN l (S (S (S (S O)))) (S (S (S (S O))))))) :: (((String
+                         ((Ascii (false, true, true, true, false, true, true,
+                         false)), (String ((Ascii (true, false, false, false,
+                         false, true, true, false)), (String ((Ascii (true,
+                         false, true, true, false, true, true, false)),
+                         (String ((Ascii (true, false, true, false, false,
+                         true, true, false)), EmptyString)))))))),
+                         (okO (OB
+                           (sub0 l (S (S (S (S (S (S (S (S O)))))))) (S (S (S
+                             (S O)))))))) :: (((String ((Ascii (false, false,
+                         true, false, false, true, true, false)), (String
+                         ((Ascii (true, false, false, false, false, true,
+                         true, false)), (String ((Ascii (false, false, true,
+                         false, true, true, true, false)), (String ((Ascii
+                         (true, false, false, false, false, true, true,
+                         false)), EmptyString)))))))),
+                         (okO
+                           (obs_range (S (S (S (S (S (S (S (S (S (S (S (S
+                             O))))))))))))
+                             (sub (sub (length l) (ref_pad_len l)) (S (S (S
+                               (S (S (S (S (S (S (S (S (S O)))))))))))))))) :: [])))
+                     | VBye ->
+                       let n0 =
+                         N.to_nat
+                           (N.modulo (byte_at l O) (Npos (XO (XO (XO (XO (XO
+                             XH)))))))
+                       in
+                       let off =
+                         add (S (S (S (S O)))) (mul (S (S (S (S O)))) n0)
+                       in
+                       ((String ((Ascii (false, false, false, false, true,
+                       true, true, false)), (String ((Ascii (true, false,
+                       false, false, false, true, true, false)), (String
+                       ((Ascii (false, false, true, false, false, true, true,
+                       false)), (String ((Ascii (false, false, true, false,
+                       false, true, true, false)), (String ((Ascii (true,
+                       false, false, true, false, true, true, false)),
+                       (String ((Ascii (false, true, true, true, false, true,
+                       true, false)), (String ((Ascii (true, true, true,
+                       false, false, true, true, false)),
+                       EmptyString)))))))))))))),
+                       (ref_padding l)) :: (((String ((Ascii (true, true,
+                       false, false, true, true, true, false)), (String
+                       ((Ascii (true, true, false, false, true, true, true,
+                       false)), (String ((Ascii (false, true, false, false,
+                       true, true, true, false)), (String ((Ascii (true,
+                       true, false, false, false, true, true, false)),
+                       (String ((Ascii (true, true, false, false, true, true,
+                       true, false)), EmptyString)))))))))),
+                       (okO (OL
+                         (map (fun k -> ON
+                           (beN l
+                             (add (S (S (S (S O)))) (mul (S (S (S (S O)))) k))
+                             (S (S (S (S O)))))) (seq O n0))))) :: (((String
+                       ((Ascii (false, true, false, false, true, true, true,
+                       false)), (String ((Ascii (true, false, true, false,
+                       false, true, true, false)), (String ((Ascii (true,
+                       false, false, false, false, true, true, false)),
+                       (String ((Ascii (true, true, false, false, true, true,
+                       true, false)), (String ((Ascii (true, true, true,
+                       true, false, true, true, false)), (String ((Ascii
+                       (false, true, true, true, false, true, true, false)),
+                       EmptyString)))))))))))),
+                       (okO
+                         (if Nat.ltb (add (add off (S O)) (ref_pad_len l))
+                               (length l)
+                          then OL ((OS (String ((Ascii (true, true, false,
+                                 false, true, true, true, false)), (String
+                                 ((Ascii (true, true, true, true, false,
+                                 true, true, false)), (String ((Ascii (true,
+                                 false, true, true, false, true, true,
+                                 false)), (String ((Ascii (true, false, true,
+                                 false, false, true, true, false)),
+                                 EmptyString))))))))) :: ((obs_range
+                                                            (add off (S O))
+                                                            (N.to_nat
+                                                              (byte_at l off))) :: []))
+                          else OS (String ((Ascii (false, true, true, true,
+                                 false, true, true, false)), (String ((Ascii
+                                 (true, true, true, true, false, true, true,
+                                 false)), (String ((Ascii (false, true, true,
+                                 true, false, true, true, false)), (String
+                                 ((Ascii (true, false, true, false, false,
+                                 true, true, false)), EmptyString))))))))))) :: []))
+                     | VRr ->
+                       ((String ((Ascii (false, false, false, false, true,
+                         true, true, false)), (String ((Ascii (true, false,
+                         false, false, false, true, true, false)), (String
+                         ((Ascii (false, false, true, false, false, true,
+                         true, false)), (String ((Ascii (false, false, true,
+                         false, false, true, true, false)), (String ((Ascii
+                         (true, false, false, true, false, true, true,
+                         false)), (String ((Ascii (false, true, true, true,
+                         false, true, true, false)), (String ((Ascii (true,
+                         true, true, false, false, true, true, false)),
+                         EmptyString)))))))))))))),
+                         (ref_padding l)) :: (((String ((Ascii (false, true,
+                         true, true, false, true, true, false)), (String
+                         ((Ascii (true, true, true, true, true, false, true,
+                         false)), (String ((Ascii (false, true, false, false,
+                         true, true, true, false)), (String ((Ascii (true,
+                         false, true, false, false, true, true, false)),
+                         (String ((Ascii (false, false, false, false, true,
+                         true, true, false)), (String ((Ascii (true, true,
+                         true, true, false, true, true, false)), (String
+                         ((Ascii (false, true, false, false, true, true,
+                         true, false)), (String ((Ascii (false, false, true,
+                         false, true, true, true, false)), (String ((Ascii
+                         (true, true, false, false, true, true, true,
+                         false)), EmptyString)))))))))))))))))),
+                         (okN
+                           (N.modulo (byte_at l O) (Npos (XO (XO (XO (XO (XO
+                             XH))))))))) :: (((String ((Ascii (true, true,
+                         false, false, true, true, true, false)), (String
+                         ((Ascii (true, true, false, false, true, true, true,
+                         false)), (String ((Ascii (false, true, false, false,
+                         true, true, true, false)), (String ((Ascii (true,
+                         true, false, false, false, true, true, false)),
+                         EmptyString)))))))),
+                         (okN (beN l (S (S (S (S O)))) (S (S (S (S O))))))) :: (((String
+                         ((Ascii (false, true, false, false, true, true,
+                         true, false)), (String ((Ascii (false, true, false,
+                         false, false, true, true, false)), (String ((Ascii
+                         (true, true, false, false, true, true, true,
+                         false)), EmptyString)))))),
+                         (ref_rbs l (S (S (S (S (S (S (S (S O)))))))))) :: [])))
+                     | VSdes ->
+                       ((String ((Ascii (false, false, false, false, true,
+                         true, true, false)), (String ((Ascii (true, false,
+                         false, false, false, true, true, false)), (String
+                         ((Ascii (false, false, true, false, false, true,
+                         true, false)), (String ((Ascii (false, false, true,
+                         false, false, true, true, false)), (String ((Ascii
+                         (true, false, false, true, false, true, true,
+                         false)), (String ((Ascii (false, true, true, true,
+                         false, true, true, false)), (String ((Ascii (true,
+                         true, true, false, false, true, true, false)),
+                         EmptyString)))))))))))))), (ref_padding l)) :: []
+                     | VSr ->
+                       ((String ((Ascii (false, false, false, false, true,
+                         true, true, false)), (String ((Ascii (true, false,
+                         false, false, false, true, true, false)), (String
+                         ((Ascii (false, false, true, false, false, true,
+                         true, false)), (String ((Ascii (false, false, true,
+                         false, false, true, true, false)), (String ((Ascii
+                         (true, false, false, true, false, true, true,
+                         false)), (String ((Ascii (false, true, true, true,
+                         false, true, true, false)), (String ((Ascii (true,
+                         true, true, false, false, true, true, false)),
+                         EmptyString)))))))))))))),
+                         (ref_padding l)) :: (((String ((Ascii (false, true,
+                         true, true, false, true, true, false)), (String
+                         ((Ascii (true, true, true, true, true, false, true,
+                         false)), (String ((Ascii (false, true, false, false,
+                         true, true, true, false)), (String ((Ascii (true,
+                         false, true, false, false, true, true, false)),
+                         (String ((Ascii (false, false, false, false, true,
+                         true, true, false)), (String ((Ascii (true, true,
+                         true, true, false, true, true, false)), (String
+                         ((Ascii (false, true, false, false, true, true,
+                         true, false)), (String ((Ascii (false, false, true,
+                         false, true, true, true, false)), (String ((Ascii
+                         (true, true, false, false, true, true, true,
+                         false)), EmptyString)))))))))))))))))),
+                         (okN
+                           (N.modulo (byte_at l O) (Npos (XO (XO (XO (XO (XO
+                             XH))))))))) :: (((String ((Ascii (true, true,
+                         false, false, true, true, true, false)), (String
+                         ((Ascii (true, true, false, false, true, true, true,
+                         false)), (String ((Ascii (false, true, false, false,
+                         true, true, true, false)), (String ((Ascii (true,
+                         true, false, false, false, true, true, false)),
+                         EmptyString)))))))),
+                         (okN (beN l (S (S (S (S O)))) (S (S (S (S O))))))) :: (((String
+                         ((Ascii (false, true, true, true, false, true, true,
+                         false)), (String ((Ascii (false, false, true, false,
+                         true, true, true, false)), (String ((Ascii (false,
+                         false, false, false, true, true, true, false)),
+                         EmptyString)))))),
+                         (okN
+                           (beN l (S (S (S (S (S (S (S (S O)))))))) (S (S (S
+                             (S (S (S (S (S O))))))))))) :: (((String ((Ascii
+                         (false, true, false, false, true, true, true,
+                         false)), (String ((Ascii (false, false, true, false,
+                         true, true, true, false)), (String ((Ascii (false,
+                         false, false, false, true, true, true, false)),
+                         EmptyString)))))),
+                         (okN
+                           (beN l (S (S (S (S (S (S (S (S (S (S (S (S (S (S
+                             (S (S O)))))))))))))))) (S (S (S (S O))))))) :: (((String
+                         ((Ascii (false, false, false, false, true, true,
+                         true, false)), (String ((Ascii (true, true, false,
+                         false, false, true, true, false)), EmptyString)))),
+                         (okN
+                           (beN l (S (S (S (S (S (S (S (S (S (S (S (S (S (S
+                             (S (S (S (S (S (S O)))))))))))))))))))) (S (S (S
+                             (S O))))))) :: (((String ((Ascii (true, true,
+                         true, true, false, true, true, false)), (String
+                         ((Ascii (true, true, false, false, false, true,
+                         true, false)), EmptyString)))),
+                         (okN
+                           (beN l (S (S (S (S (S (S (S (S (S (S (S (S (S (S
+                             (S (S (S (S (S (S (S (S (S (S
+                             O)))))))))))))))))))))))) (S (S (S (S O))))))) :: (((String
+                         ((Ascii (false, true, false, false, true, true,
+                         true, false)), (String ((Ascii (false, true, false,
+                         false, false, true, true, false)), (String ((Ascii
+                         (true, true, false, false, true, true, true,
+                         false)), EmptyString)))))),
+                         (ref_rbs l (S (S (S (S (S (S (S (S (S (S (S (S (S (S
+                           (S (S (S (S (S (S (S (S (S (S (S (S (S (S
+                           O)))))))))))))))))))))))))))))) :: [])))))))
+                     | VUnknown ->
+                       ((String ((Ascii (false, false, true, false, false,
+                         true, true, false)), (String ((Ascii (true, false,
+                         false, false, false, true, true, false)), (String
+                         ((Ascii (false, false, true, false, true, true,
+                         true, false)), (String ((Ascii (true, false, false,
+                         false, false, true, true, false)),
+                         EmptyString)))))))), (obs_range O (length l))) :: []
+                     | _ ->
+                       ((String ((Ascii (false, false, false, false, true,
+                         true, true, false)), (String ((Ascii (true, false,
+                         false, false, false, true, true, false)), (String
+                         ((Ascii (false, false, true, false, false, true,
+                         true, false)), (String ((Ascii (false, false, true,
+                         false, false, true, true, false)), (String ((Ascii
+                         (true, false, false, true, false, true, true,
+                         false)), (String ((Ascii (false, true, true, true,
+                         false, true, true, false)), (String ((Ascii (true,
+                         true, true, false, false, true, true, false)),
+                         EmptyString)))))))))))))),
+                         (ref_padding l)) :: (((String ((Ascii (true, true,
+                         false, false, true, true, true, false)), (String
+                         ((Ascii (true, false, true, false, false, true,
+                         true, false)), (String ((Ascii (false, true, true,
+                         true, false, true, true, false)), (String ((Ascii
+                         (false, false, true, false, false, true, true,
+                         false)), (String ((Ascii (true, false, true, false,
+                         false, true, true, false)), (String ((Ascii (false,
+                         true, false, false, true, true, true, false)),
+                         EmptyString)))))))))))),
+                         (okN (beN l (S (S (S (S O)))) (S (S (S (S O))))))) :: (((String
+                         ((Ascii (true, false, true, true, false, true, true,
+                         false)), (String ((Ascii (true, false, true, false,
+                         false, true, true, false)), (String ((Ascii (false,
+                         false, true, false, false, true, true, false)),
+                         (String ((Ascii (true, false, false, true, false,
+                         true, true, false)), (String ((Ascii (true, false,
+                         false, false, false, true, true, false)),
+                         EmptyString)))))))))),
+                         (okN
+                           (beN l (S (S (S (S (S (S (S (S O)))))))) (S (S (S
+                             (S O))))))) :: [])))
+
+(** val tiling : nat -> bytes -> nat -> (nat * nat) list option **)
+
+let rec tiling fuel l off =
+  match fuel with
+  | O -> None
+  | S f ->
+    if Nat.eqb off (length l)
+    then Some []
+    else if Nat.ltb (length l) (add off (S (S (S (S O)))))
+         then None
+         else let tl =
+                mul (S (S (S (S O))))
+                  (add (N.to_nat (beN l (add off (S (S O))) (S (S O)))) (S O))
+              in
+              if Nat.ltb (length l) (add off tl)
+              then None
+              else (match tiling f l (add off tl) with
+                    | Some r -> Some ((off, tl) :: r)
+                    | None -> None)
+
+(** val tiling_of : bytes -> (nat * nat) list option **)
+
+let tiling_of l = match l with
+| [] -> None
+| _ :: _ -> tiling (S (length l)) l O
+
+(** val words : nat -> nat -> bytes -> bytes list **)
+
+let rec words k fuel l =
+  match fuel with
+  | O -> []
+  | S f ->
+    if Nat.ltb (length l) k
+    then []
+    else (firstn k l) :: (words k f (skipn k l))
+
+(** val nack_word_seqs : bytes -> n list **)
+
+let nack_word_seqs w =
+  let pid = beN w O (S (S O)) in
+  let blp = beN w (S (S O)) (S (S O)) in
+  pid :: (flat_map (fun k ->
+           if N.eqb
+                (N.modulo
+                  (N.div blp (N.pow (Npos (XO XH)) (N.of_nat (sub k (S O)))))
+                  (Npos (XO XH))) (Npos XH)
+           then (N.modulo (N.add pid (N.of_nat k)) (Npos (XO (XO (XO (XO (XO
+                  (XO (XO (XO (XO (XO (XO (XO (XO (XO (XO (XO
+                  XH)))))))))))))))))) :: []
+           else [])
+           (seq (S O) (S (S (S (S (S (S (S (S (S (S (S (S (S (S (S (S
+             O))))))))))))))))))
+
+(** val fci_ref : fci_type -> nat -> bytes -> obs **)
+
+let fci_ref t base fci =
+  match t with
+  | TNack ->
+    okO (OL
+      ((okO (OL
+         (map (fun x -> ON x)
+           (flat_map nack_word_seqs
+             (words (S (S (S (S O)))) (length fci) fci))))) :: ((okO (OS
+                                                                  (String
+                                                                  ((Ascii
+                                                                  (false,
+                                                                  true, true,
+                                                                  false,
+                                                                  false,
+                                                                  true, true,
+                                                                  false)),
+                                                                  (String
+                                                                  ((Ascii
+                                                                  (true,
+                                                                  false,
+                                                                  true,
+                                                                  false,
+                                                                  true, true,
+                                                                  true,
+                                                                  false)),
+                                                                  (String
+                                                                  ((Ascii
+                                                                  (true,
+                                                                  true,
+                                                                  false,
+                                                                  false,
+                                                                  true, true,
+                                                                  true,
+                                                                  false)),
+                                                                  (String
+                                                                  ((Ascii
+                                                                  (true,
+                                                                  false,
+                                                                  true,
+                                                                  false,
+                                                                  false,
+                                                                  true, true,
+                                                                  false)),
+                                                                  (String
+                                                                  ((Ascii
+                                                                  (false,
+                                                                  false,
+                                                                  true,
+                                                                  false,
+                                                                  false,
+                                                                  true, true,
+                                                                  false)),
+                                                                  EmptyString)))))))))))) :: [])))
+  | TFir ->
+    if Nat.ltb (length fci) (S (S (S (S (S (S (S (S O))))))))
+    then OL ((OS (String ((Ascii (true, false, true, false, false, true,
+           true, false)), (String ((Ascii (false, true, false, false, true,
+           true, true, false)), (String ((Ascii (false, true, false, false,
+           true, true, true, false)),
+           EmptyString))))))) :: ((obs_perr (Truncated ((S (S (S (S (S (S (S
+                                    (S O)))))))), (length fci)))) :: []))
+    else okO
+           (okO (OL
+             (map (fun w -> OL ((ON (beN w O (S (S (S (S O)))))) :: ((ON
+               (byte_at w (S (S (S (S O)))))) :: [])))
+               (words (S (S (S (S (S (S (S (S O)))))))) (length fci) fci))))
+  | TSli ->
+    if Nat.ltb (length fci) (S (S (S (S O))))
+    then OL ((OS (String ((Ascii (true, false, true, false, false, true,
+           true, false)), (String ((Ascii (false, true, false, false, true,
+           true, true, false)), (String ((Ascii (false, true, false, false,
+           true, true, true, false)),
+           EmptyString))))))) :: ((obs_perr (Truncated ((S (S (S (S O)))),
+                                    (length fci)))) :: []))
+    else okO
+           (okO (OL
+             (map (fun w ->
+               let x = beN w O (S (S (S (S O)))) in
+               OL ((ON
+               (N.div x (Npos (XO (XO (XO (XO (XO (XO (XO (XO (XO (XO (XO (XO
+                 (XO (XO (XO (XO (XO (XO (XO XH)))))))))))))))))))))) :: ((ON
+               (N.modulo (N.div x (Npos (XO (XO (XO (XO (XO (XO XH))))))))
+                 (Npos (XO (XO (XO (XO (XO (XO (XO (XO (XO (XO (XO (XO (XO
+                 XH)))))))))))))))) :: ((ON
+               (N.modulo x (Npos (XO (XO (XO (XO (XO (XO XH))))))))) :: []))))
+               (words (S (S (S (S O)))) (length fci) fci))))
+  | TRpsi ->
+    if Nat.ltb (length fci) (S (S (S (S O))))
+    then OL ((OS (String ((Ascii (true, false, true, false, false, true,
+           true, false)), (String ((Ascii (false, true, false, false, true,
+           true, true, false)), (String ((Ascii (false, true, false, false,
+           true, true, true, false)),
+           EmptyString))))))) :: ((obs_perr (Truncated ((S (S (S (S O)))),
+                                    (length fci)))) :: []))
+    else let pb = N.to_nat (byte_at fci O) in
+         if Nat.ltb (sub (length fci) (S (S O)))
+              (Nat.div pb (S (S (S (S (S (S (S (S O)))))))))
+         then OL ((OS (String ((Ascii (true, false, true, false, false, true,
+                true, false)), (String ((Ascii (false, true, false, false,
+                true, true, true, false)), (String ((Ascii (false, true,
+                false, false, true, true, true, false)),
+                EmptyString))))))) :: ((obs_perr (Truncated
+                                         ((add
+                                            (Nat.div pb (S (S (S (S (S (S (S
+                                              (S O))))))))) (S (S O))),
+                                         (length fci)))) :: []))
+         else okO (OL
+                ((okN
+                   (N.modulo (byte_at fci (S O)) (Npos (XO (XO (XO (XO (XO
+                     (XO (XO XH)))))))))) :: ((okO (OL
+                                                ((obs_range
+                                                   (add base (S (S O)))
+                                                   (sub
+                                                     (sub (length fci) (S (S
+                                                       O)))
+                                                     (Nat.div pb (S (S (S (S
+                                                       (S (S (S (S O))))))))))) :: ((OI
+                                                (Nat.modulo pb (S (S (S (S (S
+                                                  (S (S (S O)))))))))) :: [])))) :: [])))
+  | TPli ->
+    if Nat.eqb (length fci) O
+    then okO (OS (String ((Ascii (false, false, false, false, true, true,
+           true, false)), (String ((Ascii (false, false, true, true, false,
+           true, true, false)), (String ((Ascii (true, false, false, true,
+           false, true, true, false)), EmptyString)))))))
+    else OL ((OS (String ((Ascii (true, false, true, false, false, true,
+           true, false)), (String ((Ascii (false, true, false, false, true,
+           true, true, false)), (String ((Ascii (false, true, false, false,
+           true, true, true, false)),
+           EmptyString))))))) :: ((obs_perr (TooLarge (O, (length fci)))) :: []))
+
+(** val fb_fci_ref : fb_kind -> bytes -> obs **)
+
+let fb_fci_ref k l =
+  let fmt = N.modulo (byte_at l O) (Npos (XO (XO (XO (XO (XO XH)))))) in
+  let fci =
+    sub0 l (S (S (S (S (S (S (S (S (S (S (S (S O))))))))))))
+      (sub (sub (length l) (ref_pad_len l)) (S (S (S (S (S (S (S (S (S (S (S
+        (S O)))))))))))))
+  in
+  OL
+  (map (fun t ->
+    if (&&) (fb_kind_eqb (match t with
+                          | TNack -> Transport
+                          | _ -> Payload) k)
+         (N.eqb fmt
+           (match t with
+            | TFir -> Npos (XO (XO XH))
+            | TSli -> Npos (XO XH)
+            | TRpsi -> Npos (XI XH)
+            | _ -> Npos XH))
+    then fci_ref t (S (S (S (S (S (S (S (S (S (S (S (S O)))))))))))) fci
+    else errWI) all_fci)
+
+type ref_item =
+| RItem of n * nat * nat * (nat * nat) option
+
+type ref_chunk = { rc_ssrc : n; rc_len : nat; rc_items : ref_item list }
+
+type verdict =
+| MustAccept of ref_chunk list
+| MustReject
+| Either
+
+type 'a scan =
+| Done of 'a
+| Reject
+| Ambiguous
+
+(** val ref_items :
+    nat -> bytes -> nat -> nat -> (ref_item list * nat) scan **)
+
+let rec ref_items fuel l e p =
+  match fuel with
+  | O -> Ambiguous
+  | S f ->
+    if Nat.leb e p
+    then Ambiguous
+    else if N.eqb (byte_at l p) N0
+         then let stop = pad4 (add p (S O)) in
+              if Nat.ltb e stop
+              then Ambiguous
+              else if forallb (fun b -> N.eqb b N0) (sub0 l p (sub stop p))
+                   then Done ([], stop)
+                   else Reject
+         else if Nat.ltb e (add p (S (S O)))
+              then Reject
+              else let len = N.to_nat (byte_at l (add p (S O))) in
+                   if Nat.ltb e (add (add p (S (S O))) len)
+                   then Reject
+                   else let ty = byte_at l p in
+                        let pre =
+                          if N.eqb ty (Npos (XO (XO (XO XH))))
+                          then if Nat.eqb len O
+                               then Ambiguous
+                               else let pl =
+                                      N.to_nat (byte_at l (add p (S (S O))))
+                                    in
+                                    if Nat.ltb len (add pl (S O))
+                                    then Reject
+                                    else Done (Some ((add p (S (S (S O)))),
+                                           pl))
+                          else Done None
+                        in
+                        (match pre with
+                         | Done pr ->
+                           (match ref_items f l e (add (add p (S (S O))) len) with
+                            | Done a ->
+                              let (its, stop) = a in
+                              let v =
+                                match pr with
+                                | Some p0 ->
+                                  let (po, pl) = p0 in
+                                  ((add po pl), (sub (sub len (S O)) pl))
+                                | None -> ((add p (S (S O))), len)
+                              in
+                              Done (((RItem (ty, (fst v), (snd v),
+                              pr)) :: its), stop)
+                            | x -> x)
+                         | Reject -> Reject
+                         | Ambiguous -> Ambiguous)
+
+(** val ref_chunks : nat -> bytes -> nat -> nat -> ref_chunk list scan **)
+
+let rec ref_chunks fuel l e p =
+  match fuel with
+  | O -> Ambiguous
+  | S f ->
+    if Nat.leb e p
+    then Done []
+    else if Nat.ltb e (add p (S (S (S (S O)))))
+         then Ambiguous
+         else (match ref_items (S (length l)) l e (add p (S (S (S (S O))))) with
+               | Done a ->
+                 let (its, stop) = a in
+                 (match ref_chunks f l e stop with
+                  | Done cs ->
+                    Done ({ rc_ssrc = (beN l p (S (S (S (S O))))); rc_len =
+                      (sub stop p); rc_items = its } :: cs)
+                  | x -> x)
+               | Reject -> Reject
+               | Ambiguous -> Ambiguous)
+
+(** val sdes_ref : bytes -> verdict **)
+
+let sdes_ref l =
+  match ref_chunks (S (length l)) l (sub (length l) (ref_pad_len l)) (S (S (S
+          (S O)))) with
+  | Done cs -> MustAccept cs
+  | Reject -> MustReject
+  | Ambiguous -> Either
+
+(** val obs_ref_item : ref_item -> obs **)
+
+let obs_ref_item = function
+| RItem (ty, off, len, prefix) ->
+  (match prefix with
+   | Some p ->
+     let (po, pl) = p in
+     OL
+     ((okN ty) :: ((okI (add (add (S O) pl) len)) :: ((okO
+                                                        (obs_range off len)) :: (
+     (okN (N.of_nat pl)) :: ((okO (obs_range po pl)) :: [])))))
+   | None -> OL ((okN ty) :: ((okI len) :: ((okO (obs_range off len)) :: []))))
+
+(** val obs_ref_chunk : ref_chunk -> obs **)
+
+let obs_ref_chunk c =
+  OL ((ON c.rc_ssrc) :: ((okI c.rc_len) :: ((OL
+    (map obs_ref_item c.rc_items)) :: [])))
+
+(** val obs_verdict : verdict -> obs **)
+
+let obs_verdict = function
+| MustAccept cs ->
+  OL ((OS (String ((Ascii (true, false, false, false, false, true, true,
+    false)), (String ((Ascii (true, true, false, false, false, true, true,
+    false)), (String ((Ascii (true, true, false, false, false, true, true,
+    false)), (String ((Ascii (true, false, true, false, false, true, true,
+    false)), (String ((Ascii (false, false, false, false, true, true, true,
+    false)), (String ((Ascii (false, false, true, false, true, true, true,
+    false)), EmptyString))))))))))))) :: ((OL (map obs_ref_chunk cs)) :: []))
+| MustReject ->
+  OS (String ((Ascii (false, true, false, false, true, true, true, false)),
+    (String ((Ascii (true, false, true, false, false, true, true, false)),
+    (String ((Ascii (false, true, false, true, false, true, true, false)),
+    (String ((Ascii (true, false, true, false, false, true, true, false)),
+    (String ((Ascii (true, true, false, false, false, true, true, false)),
+    (String ((Ascii (false, false, true, false, true, true, true, false)),
+    EmptyString))))))))))))
+| Either ->
+  OS (String ((Ascii (true, false, true, false, false, true, true, false)),
+    (String ((Ascii (true, false, false, true, false, true, true, false)),
+    (String ((Ascii (false, false, true, false, true, true, true, false)),
+    (String ((Ascii (false, false, false, true, false, true, true, false)),
+    (String ((Ascii (true, false, true, false, false, true, true, false)),
+    (String ((Ascii (false, true, false, false, true, true, true, false)),
+    EmptyString))))))))))))
+
+(** val rb_violations : rb_cfg -> werr list **)
+
+let rb_violations b =
+  if N.ltb (Npos (XI (XI (XI (XI (XI (XI (XI (XI (XI (XI (XI (XI (XI (XI (XI
+       (XI (XI (XI (XI (XI (XI (XI (XI XH))))))))))))))))))))))))
+       b.rb_c_cumulative
+  then (CumulativeLostTooLarge (b.rb_c_cumulative, (Npos (XI (XI (XI (XI (XI
+         (XI (XI (XI (XI (XI (XI (XI (XI (XI (XI (XI (XI (XI (XI (XI (XI (XI
+         (XI XH)))))))))))))))))))))))))) :: []
+  else []
+
+(** val pad_violations : n -> werr list **)
+
+let pad_violations p =
+  if N.eqb (N.modulo p (Npos (XO (XO XH)))) N0
+  then []
+  else (InvalidPadding p) :: []
+
+(** val item_violations : item_cfg -> werr list **)
+
+let item_violations i =
+  if N.eqb i.it_c_type (Npos (XO (XO (XO XH))))
+  then app
+         (if Nat.ltb (S (S (S (S (S (S (S (S (S (S (S (S (S (S (S (S (S (S (S
+               (S (S (S (S (S (S (S (S (S (S (S (S (S (S (S (S (S (S (S (S (S
+               (S (S (S (S (S (S (S (S (S (S (S (S (S (S (S (S (S (S (S (S (S
+               (S (S (S (S (S (S (S (S (S (S (S (S (S (S (S (S (S (S (S (S (S
+               (S (S (S (S (S (S (S (S (S (S (S (S (S (S (S (S (S (S (S (S (S
+               (S (S (S (S (S (S (S (S (S (S (S (S (S (S (S (S (S (S (S (S (S
+               (S (S (S (S (S (S (S (S (S (S (S (S (S (S (S (S (S (S (S (S (S
+               (S (S (S (S (S (S (S (S (S (S (S (S (S (S (S (S (S (S (S (S (S
+               (S (S (S (S (S (S (S (S (S (S (S (S (S (S (S (S (S (S (S (S (S
+               (S (S (S (S (S (S (S (S (S (S (S (S (S (S (S (S (S (S (S (S (S
+               (S (S (S (S (S (S (S (S (S (S (S (S (S (S (S (S (S (S (S (S (S
+               (S (S (S (S (S (S (S (S (S (S (S (S (S (S (S (S (S (S (S (S (S
+               (S (S (S (S
+               O))))))))))))))))))))))))))))))))))))))))))))))))))))))))))))))))))))))))))))))))))))))))))))))))))))))))))))))))))))))))))))))))))))))))))))))))))))))))))))))))))))))))))))))))))))))))))))))))))))))))))))))))))))))))))))))))))))))))))))))))))))))))))))))
+               (length i.it_c_prefix)
+          then (SdesPrivPrefixTooLarge ((length i.it_c_prefix), (Npos (XO (XI
+                 (XI (XI (XI (XI (XI XH)))))))))) :: []
+          else [])
+         (if Nat.ltb (S (S (S (S (S (S (S (S (S (S (S (S (S (S (S (S (S (S (S
+               (S (S (S (S (S (S (S (S (S (S (S (S (S (S (S (S (S (S (S (S (S
+               (S (S (S (S (S (S (S (S (S (S (S (S (S (S (S (S (S (S (S (S (S
+               (S (S (S (S (S (S (S (S (S (S (S (S (S (S (S (S (S (S (S (S (S
+               (S (S (S (S (S (S (S (S (S (S (S (S (S (S (S (S (S (S (S (S (S
+               (S (S (S (S (S (S (S (S (S (S (S (S (S (S (S (S (S (S (S (S (S
+               (S (S (S (S (S (S (S (S (S (S (S (S (S (S (S (S (S (S (S (S (S
+               (S (S (S (S (S (S (S (S (S (S (S (S (S (S (S (S (S (S (S (S (S
+               (S (S (S (S (S (S (S (S (S (S (S (S (S (S (S (S (S (S (S (S (S
+               (S (S (S (S (S (S (S (S (S (S (S (S (S (S (S (S (S (S (S (S (S
+               (S (S (S (S (S (S (S (S (S (S (S (S (S (S (S (S (S (S (S (S (S
+               (S (S (S (S (S (S (S (S (S (S (S (S (S (S (S (S (S (S (S (S (S
+               (S (S (S (S
+               O))))))))))))))))))))))))))))))))))))))))))))))))))))))))))))))))))))))))))))))))))))))))))))))))))))))))))))))))))))))))))))))))))))))))))))))))))))))))))))))))))))))))))))))))))))))))))))))))))))))))))))))))))))))))))))))))))))))))))))))))))))))))))))))
+               (add (length i.it_c_prefix) (length i.it_c_value))
+          then (SdesValueTooLarge ((length i.it_c_value),
+                 (N.sub (Npos (XO (XI (XI (XI (XI (XI (XI XH))))))))
+                   (N.of_nat (length i.it_c_prefix))))) :: []
+          else [])
+  else if Nat.ltb (S (S (S (S (S (S (S (S (S (S (S (S (S (S (S (S (S (S (S (S
+            (S (S (S (S (S (S (S (S (S (S (S (S (S (S (S (S (S (S (S (S (S (S
+            (S (S (S (S (S (S (S (S (S (S (S (S (S (S (S (S (S (S (S (S (S (S
+            (S (S (S (S (S (S (S (S (S (S (S (S (S (S (S (S (S (S (S (S (S (S
+            (S (S (S (S (S (S (S (S (S (S (S (S (S (S (S (S (S (S (S (S (S (S
+            (S (S (S (S (S (S (S (S (S (S (S (S (S (S (S (S (S (S (S (S (S (S
+            (S (S (S (S (S (S (S (S (S (S (S (S (S (S (S (S (S (S (S (S (S (S
+            (S (S (S (S (S (S (S (S (S (S (S (S (S (S (S (S (S (S (S (S (S (S
+            (S (S (S (S (S (S (S (S (S (S (S (S (S (S (S (S (S (S (S (S (S (S
+            (S (S (S (S (S (S (S (S (S (S (S (S (S (S (S (S (S (S (S (S (S (S
+            (S (S (S (S (S (S (S (S (S (S (S (S (S (S (S (S (S (S (S (S (S (S
+            (S (S (S (S (S (S (S (S (S (S (S (S (S (S (S
+            O)))))))))))))))))))))))))))))))))))))))))))))))))))))))))))))))))))))))))))))))))))))))))))))))))))))))))))))))))))))))))))))))))))))))))))))))))))))))))))))))))))))))))))))))))))))))))))))))))))))))))))))))))))))))))))))))))))))))))))))))))))))))))))))))
+            (length i.it_c_value)
+       then (SdesValueTooLarge ((length i.it_c_value), (Npos (XI (XI (XI (XI
+              (XI (XI (XI XH)))))))))) :: []
+       else []
+
+(** val fci_violations : fb_kind -> fci_cfg -> werr list **)
+
+let fci_violations k f =
+  app
+    (if fb_kind_eqb (match f with
+                     | FNack _ -> Transport
+                     | _ -> Payload) k
+     then []
+     else FciWrongFeedbackPacketType :: [])
+    (match f with
+     | FFir adds ->
+       if N.ltb (Npos (XO (XI (XI (XI (XI (XI (XI (XI (XI (XI (XI (XI (XI (XI
+            XH))))))))))))))) (N.of_nat (length (rfc_fir_map adds)))
+       then TooManyFir :: []
+       else []
+     | FRpsi (pt, bits, ov) ->
+       app
+         (if N.ltb (Npos (XI (XI (XI (XI (XI (XI XH))))))) pt
+          then PayloadTypeInvalid :: []
+          else [])
+         (if (||) (N.ltb (Npos (XO (XO (XO XH)))) ov)
+               (match bits with
+                | [] -> N.ltb N0 ov
+                | _ :: _ -> false)
+          then PaddingBitsTooLarge :: []
+          else [])
+     | _ -> [])
+
+(** val violations : member -> werr list **)
+
+let rec violations = function
+| MSr c ->
+  app
+    (if Nat.ltb (S (S (S (S (S (S (S (S (S (S (S (S (S (S (S (S (S (S (S (S
+          (S (S (S (S (S (S (S (S (S (S (S O)))))))))))))))))))))))))))))))
+          (length c.sr_c_blocks)
+     then (TooManyReportBlocks ((length c.sr_c_blocks), (Npos (XI (XI (XI (XI
+            XH))))))) :: []
+     else [])
+    (app (pad_violations c.sr_c_padding)
+      (flat_map rb_violations c.sr_c_blocks))
+| MRr c ->
+  app
+    (if Nat.ltb (S (S (S (S (S (S (S (S (S (S (S (S (S (S (S (S (S (S (S (S
+          (S (S (S (S (S (S (S (S (S (S (S O)))))))))))))))))))))))))))))))
+          (length c.rr_c_blocks)
+     then (TooManyReportBlocks ((length c.rr_c_blocks), (Npos (XI (XI (XI (XI
+            XH))))))) :: []
+     else [])
+    (app (pad_violations c.rr_c_padding)
+      (flat_map rb_violations c.rr_c_blocks))
+| MApp c ->
+  app
+    (if N.ltb (Npos (XI (XI (XI (XI XH))))) c.app_c_subtype
+     then (AppSubtypeOutOfRange (c.app_c_subtype, (Npos (XI (XI (XI (XI
+            XH))))))) :: []
+     else [])
+    (app
+      (if (||) (Nat.ltb (S (S (S (S O)))) (length c.app_c_name))
+            (negb
+              (forallb (fun b ->
+                N.ltb b (Npos (XO (XO (XO (XO (XO (XO (XO XH)))))))))
+                c.app_c_name))
+       then InvalidName :: []
+       else [])
+      (app
+        (if Nat.eqb (Nat.modulo (length c.app_c_data) (S (S (S (S O))))) O
+         then []
+         else (DataLen32bitMultiple (length c.app_c_data)) :: [])
+        (pad_violations c.app_c_padding)))
+| MBye c ->
+  app
+    (if Nat.ltb (S (S (S (S (S (S (S (S (S (S (S (S (S (S (S (S (S (S (S (S
+          (S (S (S (S (S (S (S (S (S (S (S O)))))))))))))))))))))))))))))))
+          (length c.bye_c_sources)
+     then (TooManySources ((length c.bye_c_sources), (Npos (XI (XI (XI (XI
+            XH))))))) :: []
+     else [])
+    (app (pad_violations c.bye_c_padding)
+      (if Nat.ltb (S (S (S (S (S (S (S (S (S (S (S (S (S (S (S (S (S (S (S (S
+            (S (S (S (S (S (S (S (S (S (S (S (S (S (S (S (S (S (S (S (S (S (S
+            (S (S (S (S (S (S (S (S (S (S (S (S (S (S (S (S (S (S (S (S (S (S
+            (S (S (S (S (S (S (S (S (S (S (S (S (S (S (S (S (S (S (S (S (S (S
+            (S (S (S (S (S (S (S (S (S (S (S (S (S (S (S (S (S (S (S (S (S (S
+            (S (S (S (S (S (S (S (S (S (S (S (S (S (S (S (S (S (S (S (S (S (S
+            (S (S (S (S (S (S (S (S (S (S (S (S (S (S (S (S (S (S (S (S (S (S
+            (S (S (S (S (S (S (S (S (S (S (S (S (S (S (S (S (S (S (S (S (S (S
+            (S (S (S (S (S (S (S (S (S (S (S (S (S (S (S (S (S (S (S (S (S (S
+            (S (S (S (S (S (S (S (S (S (S (S (S (S (S (S (S (S (S (S (S (S (S
+            (S (S (S (S (S (S (S (S (S (S (S (S (S (S (S (S (S (S (S (S (S (S
+            (S (S (S (S (S (S (S (S (S (S (S (S (S (S (S
+            O)))))))))))))))))))))))))))))))))))))))))))))))))))))))))))))))))))))))))))))))))))))))))))))))))))))))))))))))))))))))))))))))))))))))))))))))))))))))))))))))))))))))))))))))))))))))))))))))))))))))))))))))))))))))))))))))))))))))))))))))))))))))))))))))
+            (length c.bye_c_reason)
+       then (ReasonLenTooLarge ((length c.bye_c_reason), (Npos (XI (XI (XI
+              (XI (XI (XI (XI XH)))))))))) :: []
+       else []))
+| MSdes c ->
+  app
+    (if Nat.ltb (S (S (S (S (S (S (S (S (S (S (S (S (S (S (S (S (S (S (S (S
+          (S (S (S (S (S (S (S (S (S (S (S O)))))))))))))))))))))))))))))))
+          (length c.sdes_c_chunks)
+     then (TooManySdesChunks ((length c.sdes_c_chunks), (Npos (XI (XI (XI (XI
+            XH))))))) :: []
+     else [])
+    (app (pad_violations c.sdes_c_padding)
+      (flat_map (fun ch -> flat_map item_violations ch.ch_c_items)
+        c.sdes_c_chunks))
+| MFb c ->
+  app (pad_violations c.fb_c_padding) (fci_violations c.fb_c_kind c.fb_c_fci)
+| MUnk c ->
+  app
+    (if N.ltb (Npos (XI (XI (XI (XI XH))))) c.unk_c_count
+     then (CountOutOfRange (c.unk_c_count, (Npos (XI (XI (XI (XI
+            XH))))))) :: []
+     else [])
+    (app (pad_violations c.unk_c_padding)
+      (if Nat.eqb (Nat.modulo (length c.unk_c_data) (S (S (S (S O))))) O
+       then []
+       else (DataLen32bitMultiple (length c.unk_c_data)) :: []))
+| MCustom c -> pad_violations c.cu_padding
+| MCompound ms ->
+  let rec go = function
+  | [] -> []
+  | m0 :: r ->
+    app (violations m0)
+      (app
+        (match r with
+         | [] -> []
+         | _ :: _ ->
+           (match m_padding m0 with
+            | Some p ->
+              if N.ltb N0 p then NonLastCompoundPacketPadding :: [] else []
+            | None -> [])) (go r))
+  in go ms
+
+(** val representable : member -> bool **)
+
+let representable m =
+  match violations m with
+  | [] -> true
+  | _ :: _ -> false
+
+(** val obs_tiles : (nat * nat) list option -> obs **)
+
+let obs_tiles = function
+| Some ts ->
+  OL ((OS (String ((Ascii (true, true, false, false, true, true, true,
+    false)), (String ((Ascii (true, true, true, true, false, true, true,
+    false)), (String ((Ascii (true, false, true, true, false, true, true,
+    false)), (String ((Ascii (true, false, true, false, false, true, true,
+    false)), EmptyString))))))))) :: ((OL
+    (map (fun t -> OL ((OI (fst t)) :: ((OI (snd t)) :: []))) ts)) :: []))
+| None ->
+  OS (String ((Ascii (false, true, true, true, false, true, true, false)),
+    (String ((Ascii (true, true, true, true, false, true, true, false)),
+    (String ((Ascii (false, true, true, true, false, true, true, false)),
+    (String ((Ascii (true, false, true, false, false, true, true, false)),
+    EmptyString))))))))
+
+(** val spec_parse2 : entry -> bytes -> kv list **)
+
+let spec_parse2 e l =
+  app (spec_parse e l)
+    (match e with
+     | ECompound ->
+       ((String ((Ascii (true, true, false, false, true, true, true, false)),
+         (String ((Ascii (false, false, false, false, true, true, true,
+         false)), (String ((Ascii (true, false, true, false, false, true,
+         true, false)), (String ((Ascii (true, true, false, false, false,
+         true, true, false)), (String ((Ascii (false, true, true, true,
+         false, true, false, false)), (String ((Ascii (false, false, true,
+         false, true, true, true, false)), (String ((Ascii (true, false,
+         false, true, false, true, true, false)), (String ((Ascii (false,
+         false, true, true, false, true, true, false)), (String ((Ascii
+         (true, false, true, false, false, true, true, false)), (String
+         ((Ascii (true, true, false, false, true, true, true, false)),
+         EmptyString)))))))))))))))))))), (obs_tiles (tiling_of l))) :: []
+     | ETyped v ->
+       (match v with
+        | VSdes ->
+          ((String ((Ascii (true, true, false, false, true, true, true,
+            false)), (String ((Ascii (false, false, false, false, true, true,
+            true, false)), (String ((Ascii (true, false, true, false, false,
+            true, true, false)), (String ((Ascii (true, true, false, false,
+            false, true, true, false)), (String ((Ascii (false, true, true,
+            true, false, true, false, false)), (String ((Ascii (false, true,
+            false, false, true, true, true, false)), (String ((Ascii (true,
+            false, true, false, false, true, true, false)), (String ((Ascii
+            (false, true, true, false, false, true, true, false)),
+            EmptyString)))))))))))))))),
+            (obs_kvs (ref_view VSdes l))) :: (((String ((Ascii (true, true,
+            false, false, true, true, true, false)), (String ((Ascii (false,
+            false, false, false, true, true, true, false)), (String ((Ascii
+            (true, false, true, false, false, true, true, false)), (String
+            ((Ascii (true, true, false, false, false, true, true, false)),
+            (String ((Ascii (false, true, true, true, false, true, false,
+            false)), (String ((Ascii (true, true, false, false, true, true,
+            true, false)), (String ((Ascii (false, false, true, false, false,
+            true, true, false)), (String ((Ascii (true, false, true, false,
+            false, true, true, false)), (String ((Ascii (true, true, false,
+            false, true, true, true, false)), EmptyString)))))))))))))))))),
+            (obs_verdict (sdes_ref l))) :: [])
+        | VTfb ->
+          ((String ((Ascii (true, true, false, false, true, true, true,
+            false)), (String ((Ascii (false, false, false, false, true, true,
+            true, false)), (String ((Ascii (true, false, true, false, false,
+            true, true, false)), (String ((Ascii (true, true, false, false,
+            false, true, true, false)), (String ((Ascii (false, true, true,
+            true, false, true, false, false)), (String ((Ascii (false, true,
+            false, false, true, true, true, false)), (String ((Ascii (true,
+            false, true, false, false, true, true, false)), (String ((Ascii
+            (false, true, true, false, false, true, true, false)),
+            EmptyString)))))))))))))))),
+            (obs_kvs (ref_view VTfb l))) :: (((String ((Ascii (true, true,
+            false, false, true, true, true, false)), (String ((Ascii (false,
+            false, false, false, true, true, true, false)), (String ((Ascii
+            (true, false, true, false, false, true, true, false)), (String
+            ((Ascii (true, true, false, false, false, true, true, false)),
+            (String ((Ascii (false, true, true, true, false, true, false,
+            false)), (String ((Ascii (false, true, true, false, false, true,
+            true, false)), (String ((Ascii (true, true, false, false, false,
+            true, true, false)), (String ((Ascii (true, false, false, true,
+            false, true, true, false)), EmptyString)))))))))))))))),
+            (fb_fci_ref Transport l)) :: [])
+        | VPfb ->
+          ((String ((Ascii (true, true, false, false, true, true, true,
+            false)), (String ((Ascii (false, false, false, false, true, true,
+            true, false)), (String ((Ascii (true, false, true, false, false,
+            true, true, false)), (String ((Ascii (true, true, false, false,
+            false, true, true, false)), (String ((Ascii (false, true, true,
+            true, false, true, false, false)), (String ((Ascii (false, true,
+            false, false, true, true, true, false)), (String ((Ascii (true,
+            false, true, false, false, true, true, false)), (String ((Ascii
+            (false, true, true, false, false, true, true, false)),
+            EmptyString)))))))))))))))),
+            (obs_kvs (ref_view VPfb l))) :: (((String ((Ascii (true, true,
+            false, false, true, true, true, false)), (String ((Ascii (false,
+            false, false, false, true, true, true, false)), (String ((Ascii
+            (true, false, true, false, false, true, true, false)), (String
+            ((Ascii (true, true, false, false, false, true, true, false)),
+            (String ((Ascii (false, true, true, true, false, true, false,
+            false)), (String ((Ascii (false, true, true, false, false, true,
+            true, false)), (String ((Ascii (true, true, false, false, false,
+            true, true, false)), (String ((Ascii (true, false, false, true,
+            false, true, true, false)), EmptyString)))))))))))))))),
+            (fb_fci_ref Payload l)) :: [])
+        | _ ->
+          ((String ((Ascii (true, true, false, false, true, true, true,
+            false)), (String ((Ascii (false, false, false, false, true, true,
+            true, false)), (String ((Ascii (true, false, true, false, false,
+            true, true, false)), (String ((Ascii (true, true, false, false,
+            false, true, true, false)), (String ((Ascii (false, true, true,
+            true, false, true, false, false)), (String ((Ascii (false, true,
+            false, false, true, true, true, false)), (String ((Ascii (true,
+            false, true, false, false, true, true, false)), (String ((Ascii
+            (false, true, true, false, false, true, true, false)),
+            EmptyString)))))))))))))))), (obs_kvs (ref_view v l))) :: [])
+     | ERb ->
+       ((String ((Ascii (true, true, false, false, true, true, true, false)),
+         (String ((Ascii (false, false, false, false, true, true, true,
+         false)), (String ((Ascii (true, false, true, false, false, true,
+         true, false)), (String ((Ascii (true, true, false, false, false,
+         true, true, false)), (String ((Ascii (false, true, true, true,
+         false, true, false, false)), (String ((Ascii (false, true, false,
+         false, true, true, true, false)), (String ((Ascii (true, false,
+         true, false, false, true, true, false)), (String ((Ascii (false,
+         true, true, false, false, true, true, false)),
+         EmptyString)))))))))))))))), (okO (ref_rb l O))) :: []
+     | EFci t ->
+       ((String ((Ascii (true, true, false, false, true, true, true, false)),
+         (String ((Ascii (false, false, false, false, true, true, true,
+         false)), (String ((Ascii (true, false, true, false, false, true,
+         true, false)), (String ((Ascii (true, true, false, false, false,
+         true, true, false)), (String ((Ascii (false, true, true, true,
+         false, true, false, false)), (String ((Ascii (false, true, true,
+         false, false, true, true, false)), (String ((Ascii (true, true,
+         false, false, false, true, true, false)), (String ((Ascii (true,
+         false, false, true, false, true, true, false)),
+         EmptyString)))))))))))))))), (fci_ref t O l)) :: []
+     | _ -> [])
+
+(** val spec_build2 : member -> kv list **)
+
+let spec_build2 m =
+  app (spec_build m) (((String ((Ascii (true, true, false, false, true, true,
+    true, false)), (String ((Ascii (false, false, false, false, true, true,
+    true, false)), (String ((Ascii (true, false, true, false, false, true,
+    true, false)), (String ((Ascii (true, true, false, false, false, true,
+    true, false)), (String ((Ascii (false, true, true, true, false, true,
+    false, false)), (String ((Ascii (false, true, false, false, true, true,
+    true, false)), (String ((Ascii (true, false, true, false, false, true,
+    true, false)), (String ((Ascii (false, false, false, false, true, true,
+    true, false)), (String ((Ascii (false, true, false, false, true, true,
+    true, false)), (String ((Ascii (true, false, true, false, false, true,
+    true, false)), (String ((Ascii (true, true, false, false, true, true,
+    true, false)), (String ((Ascii (true, false, true, false, false, true,
+    true, false)), (String ((Ascii (false, true, true, true, false, true,
+    true, false)), (String ((Ascii (false, false, true, false, true, true,
+    true, false)), (String ((Ascii (true, false, false, false, false, true,
+    true, false)), (String ((Ascii (false, true, false, false, false, true,
+    true, false)), (String ((Ascii (false, false, true, true, false, true,
+    true, false)), (String ((Ascii (true, false, true, false, false, true,
+    true, false)), EmptyString)))))))))))))))))))))))))))))))))))),
+    (obs_bool (representable m))) :: (((String ((Ascii (true, true, false,
+    false, true, true, true, false)), (String ((Ascii (false, false, false,
+    false, true, true, true, false)), (String ((Ascii (true, false, true,
+    false, false, true, true, false)), (String ((Ascii (true, true, false,
+    false, false, true, true, false)), (String ((Ascii (false, true, true,
+    true, false, true, false, false)), (String ((Ascii (false, true, true,
+    false, true, true, true, false)), (String ((Ascii (true, false, false,
+    true, false, true, true, false)), (String ((Ascii (true, true, true,
+    true, false, true, true, false)), (String ((Ascii (false, false, true,
+    true, false, true, true, false)), (String ((Ascii (true, false, false,
+    false, false, true, true, false)), (String ((Ascii (false, false, true,
+    false, true, true, true, false)), (String ((Ascii (true, false, false,
+    true, false, true, true, false)), (String ((Ascii (true, true, true,
+    true, false, true, true, false)), (String ((Ascii (false, true, true,
+    true, false, true, true, false)), (String ((Ascii (true, true, false,
+    false, true, true, true, false)),
+    EmptyString)))))))))))))))))))))))))))))), (OL
+    (map obs_werr (violations m)))) :: []))
